@@ -834,6 +834,8 @@ def gen_val(rng, classes, t, budget, p_bad, ctx):
             ds = [i for i, s in enumerate(reversed(ctx["stack"])) if s == ("data", t["data"])]
             if ds:
                 ctx["refs"] += 1
+                if ctx.get("unread"):
+                    ctx["ref_unread"] = True      # the cycle hangs off a position the conversion never reads
                 return {"ref": rng.choice(ds)}
         if budget <= 0:
             return rng.choice([None, tok(GOOD, rng), {"d": []}, {"l": []}])
@@ -841,6 +843,8 @@ def gen_val(rng, classes, t, budget, p_bad, ctx):
             return rng.choice([None, tok(GOOD, rng), {"l": []}, {"l": [{"l": []}]}, {"l": [tok(GOOD, rng)]}])
         if ctx["cyc"] and ctx["refs"] < 1 and r > 0.93:
             ctx["refs"] += 1
+            if ctx.get("unread"):
+                ctx["ref_unread"] = True
             return rng.choice(list(self_sequences().values()))
         if r > 0.90 and not ctx.get("wrapping"):
             # a single-item (or longer) sequence standing for the mapping: transform_dataclass / to_dict unwrap it
@@ -850,7 +854,10 @@ def gen_val(rng, classes, t, budget, p_bad, ctx):
             levels = 2 if 0.5 <= shape < 0.75 else 1
             ctx["stack"].extend(["wrap"] * levels)
             inner = gen_val(rng, classes, t, budget, p_bad, ctx)
+            # of a sequence standing for a mapping only item 0 is ever read (transform_dataclass / to_dict)
+            ctx["unread"] = ctx.get("unread", 0) + 1
             more = gen_val(rng, classes, t, 0, p_bad, ctx) if shape >= 0.75 else None
+            ctx["unread"] -= 1
             del ctx["stack"][-levels:]
             ctx["wrapping"] = False
             if shape < 0.5:
@@ -921,7 +928,8 @@ def gen_random_case(rng, cyc=False):
     if cyc:
         case["cyc"] = True
         # the cycle re-enters the same class through the same fields: with unambiguous unions the reading is forced
-        case["cyc_forced"] = not decl_ambiguous(classes)
+        # … and the cycle must sit where the conversion reads (not behind item 0 of a sequence standing for a mapping)
+        case["cyc_forced"] = not decl_ambiguous(classes) and not ctx.get("ref_unread")
     return case
 
 
